@@ -448,7 +448,14 @@ def eval_hist(case, acc=None):
     rspec, hspec = case.get("rspec"), case.get("hspec")
     viol = []
     axis = "cycle" if layout == "axis" else None
-    el = _default_elements(len(rows))
+    if axis is not None and "relabel" not in case:
+        # every grouped case twice: group keys first appearing in sorted order (10, 20) and not (30, 10)
+        out = []
+        for relabel in (None, {10: 30, 20: 10}):
+            out += eval_hist(dict(case, relabel=relabel), acc)
+        return out
+    relabel = case.get("relabel") or {}
+    el = [relabel.get(e, e) for e in _default_elements(len(rows))]
     groups = {None: list(range(len(rows)))} if axis is None else {e: [i for i in range(len(rows)) if el[i] == e] for e in sorted(set(el))}
     # with axis= and a class *count* every group gets its own data-dependent edges: an input class of its own
     per_group = axis is not None and any(sp is not None and (sp["t"] == "int" or (sp["t"] == "2d" and (isinstance(sp["x"], int) or isinstance(sp["y"], int))))
@@ -460,7 +467,7 @@ def eval_hist(case, acc=None):
     rcounts = {}
     if rspec is not None:
         site = "range_histogram%s/%s" % (suffix, name)
-        df = _frame(rows, "fromto", cycles, "plain" if axis is None else "multi")
+        df = _frame(rows, "fromto", cycles, "plain" if axis is None else "multi", el)
         res = _call(site, lambda: df.load_collective.range_histogram(_bins(rspec), axis).to_pandas(), viol, case)
         if acc is not None:
             acc.evaluations += 1
@@ -478,7 +485,7 @@ def eval_hist(case, acc=None):
                         acc.outcomes.add(hash((tuple(e), tuple(rcounts[g]))))
     if hspec is not None:
         site = "histogram%s/%s" % (suffix, name)
-        df = _frame(rows, "fromto", cycles, "plain" if axis is None else "multi")
+        df = _frame(rows, "fromto", cycles, "plain" if axis is None else "multi", el)
         res = _call(site, lambda: df.load_collective.histogram(_bins(hspec), axis).to_pandas(), viol, case)
         if acc is not None:
             acc.evaluations += 1
@@ -733,6 +740,21 @@ def eval_combine(case, acc=None):
         return viol
     if float(r.sum()) != total:
         viol.append(("C14/%s/grand-total" % site, case, {"inputs_total": total, "combined_total": float(r.sum()), "combined": r.to_numpy()}))
+    elif not case.get("two_d") and len(r):
+        # the documented next step: re-bin the combined histogram (whose classes may overlap / contain one another)
+        # to gap-free binnings that cover it; the total must survive
+        from pylife.utils.histogram import rebin_histogram
+        lo, hi = float(min(iv.left for iv in r.index)), float(max(iv.right for iv in r.index))
+        for nb in (1, 3, 6):
+            tgt = pd.IntervalIndex.from_breaks([lo + (hi - lo) * k / nb for k in range(nb)] + [hi])
+            rr = _call(site + "->rebin_histogram", lambda: rebin_histogram(r, tgt), viol, case)
+            if acc is not None:
+                acc.evaluations += 1
+            if rr is not None and abs(float(rr.sum()) - total) > 1e-9 * max(total, 1.0):
+                viol.append(("C14/%s->rebin_histogram/total" % site, case,
+                             {"combined_classes": [str(iv) for iv in r.index], "combined": r.to_numpy(), "target_classes": nb,
+                              "total_before": total, "total_after": float(rr.sum())}))
+                break
     if acc is not None:
         acc.outcomes.add(hash((tuple(map(str, r.index)), tuple(float(x) for x in r.to_numpy()))))
     return viol
